@@ -2,7 +2,7 @@
 import e2
 
 TIE = ["Nsq.Tie.Chan", "Nsq.Tie.ChanFunc"]
-PROPS = ["Nsq.Props.C03", "Nsq.Props.C03Pump", "Nsq.Props.C03Pause", "Nsq.Props.C03Guard"]
+PROPS = ["Nsq.Props.C03", "Nsq.Props.C03Pump", "Nsq.Props.C03Pause", "Nsq.Props.C03Guard", "Nsq.Props.C03PumpBytes"]
 
 
 def run(ctx):
